@@ -59,6 +59,8 @@ EXTRACT_PROGRAMS = [
     "fun f(o: Option<Int>): Int {\n  match o {\n    Some(v) => { v + 1 }\n    None => 0\n  }\n}\nprintln(string_repr(f(Some(2))))\nprintln(string_repr(f(None)))\n",
     "fun g(xs: List<Int>): Int {\n  let t = xs.len() * 2\n  if t > 2 { t + (xs.len() + 1) } else { 0 - t }\n}\nprintln(string_repr(g([1, 2, 3])))\nprintln(string_repr(g([])))\n",
     "struct P { x: Int, name: String }\nfun h(p: P): String {\n  let (m, n) = (p.x + 1, p.name ^ \"\\u00e9\\U0001F600\")\n  n ^ string_repr(m)\n}\nprintln(h(P{ x: 1, name: \"a\" }))\n",
+    # an if / else if / else chain whose branches have their own lets
+    "fun sign(n: Int): String {\n  if n < 0 {\n    let m = 0 - n\n    \"minus \" ^ string_repr(m * 2)\n  } else if n == 0 {\n    \"zero\"\n  } else if (n + 1) > 3 {\n    let q = n + 1\n    \"plus \" ^ string_repr(q)\n  } else {\n    \"small\"\n  }\n}\nprintln(sign(0 - 3))\nprintln(sign(0))\nprintln(sign(5))\nprintln(sign(1))\n",
     "fun k(x: Int): Int {\n  let mul = fun(y: Int) { y * x }\n  for i in [1, 2] {\n    println(string_repr(mul(i) + x))\n  }\n  mul(3)\n}\nprintln(string_repr(k(4)))\n",
 ]
 BOUNDED = [
